@@ -37,8 +37,9 @@ def marked(r):
         return False
 
 
-def regex_member(run, mid, key, r, comp, N, variant=None, spec=None, states=True, vtag="", timeout=120):
-    """all obligations of one family member. comp: result of `ax compile` for it."""
+def regex_member(run, mid, key, r, comp, N, variant=None, spec=None, states=True, vtag="", timeout=120, light=False):
+    """all obligations of one family member. comp: result of `ax compile` for it.
+    light (systematic product family): `:eq` + ONE merged `:states` obligation, no `:det` / `:unamb`."""
     tag = f"A/{mid}{vtag}"
     bound = f"word length <= {N}; markers <= 64"
     ob = core.Ob(f"{tag}:eq", "A", "compiled automaton accepts exactly the marked words of the expression's language", functions=FUNCS, bound=bound, key=key)
@@ -76,21 +77,29 @@ def regex_member(run, mid, key, r, comp, N, variant=None, spec=None, states=True
         run.log(f"{ob.status:12s} {ob.id} {ob.detail[:120]}")
         return
     auto = A.Auto(comp["automaton"])
-    determinism(run, f"{tag}:det", key, auto.raw, FUNCS[2:], "dumped transition list of the compiled automaton", dict(spec or {"r": r}))
+    if not light:
+        determinism(run, f"{tag}:det", key, auto.raw, FUNCS[2:], "dumped transition list of the compiled automaton", dict(spec or {"r": r}))
     t0 = time.time()
     try:
         A.decide_equiv(run, ob, r, auto, N, variant, spec, timeout=timeout, cross=2)
     except Exception as ex:  # noqa
         import traceback
         ob.set(INCONCLUSIVE, f"engine error {ex!r} {traceback.format_exc()[-300:]}")
-    run.log(f"{ob.status:12s} {ob.id} n<={N} {ob.solver_s:.1f}s/{time.time() - t0:.1f}s q={ob.queries} {ob.detail[:140]}")
+    if not light or ob.status != HOLDS:
+        run.log(f"{ob.status:12s} {ob.id} n<={N} {ob.solver_s:.1f}s/{time.time() - t0:.1f}s q={ob.queries} {ob.detail[:140]}")
     if states:
         obs = [core.Ob(f"{tag}:states-{k}", "A", w, functions=FUNCS, bound="every state of the compiled automaton; all letters; suffixes of any length", key=key)
                for k, w in (("missing", "no letter that continues a word of the language is missing at any state"),
                             ("present", "every transition class (with its marker) continues to an accepted word of the language"),
                             ("final", "a state is final exactly when its access word is in the language"))]
-        for o in obs:
-            run.add(o)
+        merged = None
+        if light:
+            merged = core.Ob(f"{tag}:states", "A", "at every state of the compiled automaton: no letter of the language is missing, every transition class continues to an accepted word, final flag = membership of the access word",
+                             functions=FUNCS, bound="every state of the compiled automaton; all letters; suffixes of any length", key=key)
+            run.add(merged)
+        else:
+            for o in obs:
+                run.add(o)
         t0 = time.time()
         try:
             A.decide_states(run, obs, r, auto, variant, spec, timeout=max(timeout, 120))
@@ -99,8 +108,18 @@ def regex_member(run, mid, key, r, comp, N, variant=None, spec=None, states=True
             for o in obs:
                 if o.status is None:
                     o.set(INCONCLUSIVE, f"engine error {ex!r} {traceback.format_exc()[-300:]}")
-        run.log(f"{'/'.join(o.status[:4] for o in obs)} {tag}:states {sum(o.solver_s for o in obs):.1f}s/{time.time() - t0:.1f}s {' | '.join(o.detail[:100] for o in obs if o.detail)}")
-    if marked(r) and ob.status == HOLDS:
+        if merged is not None:
+            merged.queries = sum(o.queries for o in obs)
+            merged.solver_s = sum(o.solver_s for o in obs)
+            merged.vacuity = all(o.vacuity for o in obs)
+            worst = [o for o in obs if o.status == VIOLATION] or [o for o in obs if o.status != HOLDS]
+            if worst:
+                merged.set(worst[0].status, worst[0].detail, solver="z3-new", replay=worst[0].replay)
+            else:
+                merged.set(HOLDS, "; ".join(o.detail for o in obs if o.detail), solver="z3-new")
+        if not light or any(o.status != HOLDS for o in obs):
+            run.log(f"{'/'.join(o.status[:4] for o in obs)} {tag}:states {sum(o.solver_s for o in obs):.1f}s/{time.time() - t0:.1f}s {' | '.join(o.detail[:100] for o in obs if o.detail)}")
+    if marked(r) and ob.status == HOLDS and not light:
         ob2 = core.Ob(f"{tag}:unamb", "A", "no word of the expression's language has two marker sequences", functions=FUNCS[:2], bound=f"word length <= {N}", key=key)
         run.add(ob2)
         try:
@@ -423,9 +442,22 @@ def check(run):
             jobs.append(lambda name=name, ent=ent, comp=comp, n_lib=n_lib: regex_member(run, f"lib[{name}]", f"lib:{name}:ascii-strings", ent["r"], comp, n_lib, {"json_ascii": 1}, {"lib": name}, vtag="[json strings restricted to ASCII]", timeout=120))
         if ent.get("shipped") is not None:
             jobs.append(lambda ent=ent: shipped_member(run, ent))
+    # systematic product family (every combinator x every leaf in every operand position), deduplicated
+    NP = 2 if tier == "quick" else 6
+    t0 = time.time()
+    pm, pcomps, stats = A.product_family(tier, compile_timeout=20 if tier == "quick" else 120)
+    run.log(f"product family: {stats} in {time.time() - t0:.1f}s")
+    run.bounds.append(f"engine A product family: {stats['candidates']} expressions (unary combinators x {len(A.rich_leaves())} leaves, binary / separated / delimited combinators x all ordered pairs of "
+                      f"{len(A.REDUCED) if tier == 'quick' else len(A.REDUCED) + 4} leaves, concatenations and unions of three"
+                      + ("" if tier == "quick" else ", depth-2 shapes op1(op2(iterated word), X) in both operand positions")
+                      + f"), {stats['outside']} outside the claim, {stats['distinct']} distinct after deduplication on (normal form of the reference language, compiled automaton up to renaming); "
+                      f":eq word length <= {NP}, :states every state with unbounded suffixes")
+    for mid, key, r in pm:
+        jobs.append(lambda mid=mid, key=key, r=r: regex_member(run, mid, key, r, pcomps[mid], NP, light=True))
     with ThreadPoolExecutor(8) as ex:
         list(ex.map(lambda f: f(), jobs))
-    translator_validation(run, members, comps)
+    rnd_tv = __import__("random").Random(core.seed() + 5)
+    translator_validation(run, members + [(i, k, r, None) for i, k, r in rnd_tv.sample(pm, min(len(pm), 150))], dict(comps, **pcomps))
 
 
 KINDS = ("regex-word", "regex-panic", "shipped-differs", "shipped-bytes", "duplicate-key")
